@@ -89,3 +89,9 @@ MUTANTS += [
     dict(property='C01', name='rate vector: every entry is the first rate', file=BASEF, old="            self._eventRateVector[i]=checkEquation(event.rate, *self._getListOfVariablesDict())", new="            self._eventRateVector[i]=checkEquation(self.event_list[0].rate, *self._getListOfVariablesDict())"),
     dict(property='C01', name='pureOdeVector: indexes by loop position', file=BASEF, old="        for ode in self.ode_list:\n            origin_index=self.state_list.index(ode.origin)\n            pure_ode[origin_index] += checkEquation(ode.equation, *self._getListOfVariablesDict())\n\n        self._pureOdeVector=pure_ode", new="        for n_ode, ode in enumerate(self.ode_list):\n            origin_index=n_ode\n            pure_ode[origin_index] += checkEquation(ode.equation, *self._getListOfVariablesDict())\n\n        self._pureOdeVector=pure_ode"),
 ]
+MUTANTS += [
+    dict(property='C03', name='grad_jacobian row index i*nP+k', file=DETF, old="                    z = k*self.num_state + i", new="                    z = i*self.num_param + k"),
+    dict(property='C03', name='grad_jacobian differentiates the wrong gradient cell', file=DETF, old="simplifyEquation(diff(G[i,k], s, 1))", new="simplifyEquation(diff(G[i,0], s, 1))"),
+    dict(property='C03', name='grad uses the state symbols', file=DETF, old="            for j, p in enumerate(self._iterParamList()):\n                eqn, isDifficult = simplifyEquation(diff(ode[i], p, 1))", new="            for j, p in enumerate(self._iterStateList()):\n                eqn, isDifficult = simplifyEquation(diff(ode[i], p, 1))"),
+    dict(property='C03', name='jacobian simplification writes to the transposed cell', file=DETF, old="                    self._Jacobian[i,j], isDifficult = simplifyEquation(eqn)", new="                    self._Jacobian[j,i], isDifficult = simplifyEquation(eqn)"),
+]
